@@ -19,13 +19,40 @@ package main
 // Every random choice comes from g.R.
 
 import (
+	"encoding/hex"
+	"regexp"
 	"strconv"
 	"strings"
 )
 
+var dirIntKeyRe = regexp.MustCompile(`"(-?\d+)":`)
+
+func dirFloatKeys(g *Gen, doc []byte) []byte {
+	return dirIntKeyRe.ReplaceAllFunc(doc, func(m []byte) []byte {
+		k := string(m[1 : len(m)-2])
+		switch g.R.Intn(6) {
+		case 0:
+			k += ".5"
+		case 1:
+			k += "e1"
+		case 2:
+			k += ".0"
+		case 3:
+			k += "e40"
+		}
+		return []byte(`"` + k + `":`)
+	})
+}
+
+// the JSON name a hex-spelled tag gives (the part before the first comma)
+func dirTagName(h string) string {
+	b, _ := hex.DecodeString(h)
+	return strings.SplitN(string(b), ",", 2)[0]
+}
+
 const dirMaxFields = 50 // jitdec._MAX_FIELDS
 
-var dirLibAtoms = []string{"MV", "MP", "TV", "TP", "Rec", "Tree", "EmbOuter", "DirSJ", "DirST", "DirVJ", "DirVT", "DirIU", "DirIT", "DirIM", "DirRef"}
+var dirLibAtoms = []string{"MV", "MP", "TV", "TP", "Rec", "Tree", "EmbOuter", "DirSJ", "DirST", "DirVJ", "DirVT", "DirIU", "DirIT", "DirIM", "DirRef", "DirRefT"}
 
 var dirKeyTypes = []string{"str", "str", "str", "num", "i8", "i16", "i32", "i64", "int", "u8", "u16", "u32", "u64", "uint", "uptr", "f32", "f64",
 	"bool", "any", "(lib TV)", "(ptr (lib TV))", "(lib DirST)", "(lib DirVT)", "(ptr (lib DirVT))", "(lib DirIT)", "(lib DirIM)", "(arr 2 i8)",
@@ -219,15 +246,20 @@ func dirSubType(g *Gen, depth int) *sx {
 	}
 }
 
-// the machine model beyond the theorem: string- and integer-keyed maps, json.Number, `,string`
+// the machine model beyond the theorem: maps with string, integer, float and TextUnmarshaler keys, json.Number, `,string`
 func dirRunType(g *Gen, depth int) *sx {
 	switch g.R.Intn(10) {
 	case 0:
-		k := "str"
-		if g.R.Intn(2) == 0 {
-			k = []string{"i8", "i16", "i32", "i64", "int", "u8", "u16", "u32", "u64", "uint"}[g.R.Intn(10)]
+		var k *sx = atomT("str")
+		switch g.R.Intn(6) {
+		case 0, 1:
+			k = atomT([]string{"i8", "i16", "i32", "i64", "int", "u8", "u16", "u32", "u64", "uint"}[g.R.Intn(10)])
+		case 2:
+			k = atomT([]string{"f32", "f64"}[g.R.Intn(2)])
+		case 3:
+			k = parseSx([]string{"(lib TV)", "(lib TV)", "(ptr (lib TV))", "(lib DirVT)"}[g.R.Intn(4)])
 		}
-		return listT("map", atomT(k), dirSubType(g, depth-1))
+		return listT("map", k, dirSubType(g, depth-1))
 	case 1:
 		st := listT("st")
 		for i, a := range []string{"i8", "u16", "bool", "str", "f64", "num", "i64"} {
@@ -263,7 +295,17 @@ func dirCase(g *Gen) (cfg uint64, tn *sx, root *jn, tags []string) {
 	}
 	dirCurLeft--
 	tn = dirCurType
-	p := &jparser{b: marshalRandom(g, tn)}
+	src := tn
+	floatKey := tn.isL && tn.list[0].atom == "map" && !tn.list[1].isL && (tn.list[1].atom == "f32" || tn.list[1].atom == "f64")
+	if floatKey {
+		// encoding/json cannot marshal a float-keyed map: the document comes from the int16-keyed twin, some keys get a fraction / exponent
+		src = listT("map", atomT("i16"), tn.list[2])
+	}
+	raw := marshalRandom(g, src)
+	if floatKey {
+		raw = dirFloatKeys(g, raw)
+	}
+	p := &jparser{b: raw}
 	root = p.val()
 	root = mutateDoc(g, root, hasValidate(cfg), &tags)
 	return
@@ -302,6 +344,8 @@ var dirEdgeTypes = []string{
 	"(lib DirRef)", "(ptr (lib DirRef))", "(ptr (ptr (lib DirRef)))", "(sl (lib DirRef))", "(map str (lib DirRef))", "(arr 2 (lib DirRef))",
 	"(st (f A - (lib DirRef)) (f B - (lib MV)) (f C - (lib DirRef)))", "(st (f A - (st (f B - (st (f C - (lib DirRef)))))))",
 	"(st (f A - (st (f B - (st (f Items - (sl (lib DirRef))))))))", "(st (f A 2c737472696e67 (lib DirRef)))", "(map (lib DirRef) i8)",
+	"(lib DirRefT)", "(ptr (lib DirRefT))", "(sl (lib DirRefT))", "(st (f A - (lib DirRefT)) (f B - (lib TV)) (f C 2c737472696e67 (lib DirRefT)))",
+	"(arr 1 (arr 1 (arr 1 (lib DirRefT))))", "(map (lib DirRefT) i8)", "(map str (lib DirRefT))",
 }
 
 func init() {
@@ -392,6 +436,113 @@ func init() {
 				tags = append(tags, "damaged")
 			}
 			g.Emit("dirun", strconv.FormatUint(cfg, 10), tn.String(), hexArg(doc), tagStr(tags))
+		}
+	})
+	// defined pointer types (`type DirRef *MV`, `type DirRefT *TV`) as destinations of typed Unmarshal: as a struct FIELD (the
+	// resolver rebuilds the type with reflect.PtrTo, the element's pointer methods are called: finding
+	// C01-field-defined-pointer-type-calls-elem-unmarshaler), as an element below the JIT's inline bound (`_OP_recurse` -> the
+	// method: C09-jitdec-namedptr-inline-depth seen through Unmarshal), and above it (agrees with encoding/json: controls)
+	registerGen("bind.defptr", func(g *Gen) {
+		field := []string{
+			"(st (f A - (lib DirRef)))", "(st (f X - int) (f A 72 (lib DirRef)) (f S - str))", "(sl (st (f A - (lib DirRef))))",
+			"(map str (st (f A - (lib DirRef))))", "(ptr (st (f A - (lib DirRef))))", "(st (f O - (st (f A - (lib DirRef)))))",
+			"(st (f A - (lib DirRefT)))", "(arr 2 (st (f A - (lib DirRefT)) (f B - (lib DirRef))))",
+		}
+		elem := []string{
+			"(lib DirRef)", "(sl (lib DirRef))", "(arr 2 (lib DirRef))", "(ptr (lib DirRef))", "(map str (lib DirRef))", "(sl (sl (lib DirRef)))",
+			"(sl (sl (sl (lib DirRef))))", "(arr 1 (arr 1 (arr 1 (lib DirRef))))", "(map str (sl (sl (lib DirRef))))",
+			"(st (f A - (st (f B - (st (f Items - (sl (lib DirRef))))))))", "(sl (sl (sl (sl (lib DirRefT)))))", "(sl (lib DirRefT))",
+		}
+		num := func() string { return strconv.Itoa(g.R.Intn(2000) - 1000) }
+		// a value for the element struct MV / TV, in the spellings that tell the method from the field-by-field decoding apart
+		leaf := func(text bool) string {
+			switch g.R.Intn(9) {
+			case 0:
+				return `{"V":` + num() + `}`
+			case 1:
+				return `{"mv":` + num() + `}`
+			case 2:
+				return `{"V":` + num() + `,"mv":` + num() + `}`
+			case 3:
+				return `{"mv":` + num() + `, "v" : ` + num() + `}`
+			case 4:
+				return "null"
+			case 5:
+				return "{}"
+			case 6:
+				return `"tv` + num() + `"`
+			case 7:
+				return num()
+			}
+			if text {
+				return `"tv` + num() + `"`
+			}
+			return `{"V":` + num() + `}`
+		}
+		var doc func(t *sx) string
+		doc = func(t *sx) string {
+			if !t.isL {
+				switch t.atom {
+				case "int":
+					return num()
+				case "str":
+					return `"s` + num() + `"`
+				}
+				return "null"
+			}
+			switch t.list[0].atom {
+			case "lib":
+				return leaf(t.list[1].atom == "DirRefT")
+			case "ptr":
+				return doc(t.list[1])
+			case "sl":
+				parts := []string{}
+				for k := g.R.Intn(3); k >= 0; k-- {
+					parts = append(parts, doc(t.list[1]))
+				}
+				return "[" + strings.Join(parts, ",") + "]"
+			case "arr":
+				n, _ := strconv.Atoi(t.list[1].atom)
+				parts := []string{}
+				for k := 0; k < n; k++ {
+					parts = append(parts, doc(t.list[2]))
+				}
+				return "[" + strings.Join(parts, ", ") + "]"
+			case "map":
+				parts := []string{}
+				for k := g.R.Intn(3); k >= 0; k-- {
+					parts = append(parts, `"k`+strconv.Itoa(k)+`":`+doc(t.list[2]))
+				}
+				return "{" + strings.Join(parts, ",") + "}"
+			case "st":
+				parts := []string{}
+				for _, f := range t.list[1:] {
+					name := f.list[1].atom
+					if f.list[2].atom != "-" {
+						name = dirTagName(f.list[2].atom)
+					}
+					if g.R.Intn(6) == 0 {
+						continue
+					}
+					parts = append(parts, `"`+name+`": `+doc(f.list[3]))
+				}
+				return "{" + strings.Join(parts, ",") + "}"
+			}
+			return "null"
+		}
+		for i := 0; i < g.N; i++ {
+			cfg, cname := pickConfig(g)
+			tags := []string{"cfg:" + cname, "defptr"}
+			var t string
+			if i%2 == 0 {
+				t = field[g.R.Intn(len(field))]
+				tags = append(tags, "defptr_field")
+			} else {
+				t = elem[g.R.Intn(len(elem))]
+				tags = append(tags, "defptr_elem")
+			}
+			tn := parseSx(t)
+			g.Emit("bind", strconv.FormatUint(cfg, 10), tn.String(), hexArg([]byte(doc(tn))), tagStr(tags))
 		}
 	})
 	registerGen("dir.sub", func(g *Gen) {
